@@ -336,6 +336,11 @@ func buildCatalogue() []deviation {
 		m.Set("io.example.Second", `"3"`, nil)
 		m.Set("7", `[7]`, nil)
 	})
+	// a payload is a payload: members a JWT library would read as registered
+	// claims (expired, not yet valid, issued in the future, not even numbers)
+	add("payload-with-claim-like-members", true, both, func(m *Model) {
+		m.Payload = []byte(`{"exp":1,"nbf":9999999999,"iat":"tomorrow","targetArtifact":{"digest":"sha256:00","size":1}}`)
+	})
 	add("headers-reversed", true, both, func(m *Model) {
 		for i, j := 0, len(m.JWS)-1; i < j; i, j = i+1, j-1 {
 			m.JWS[i], m.JWS[j] = m.JWS[j], m.JWS[i]
